@@ -266,6 +266,8 @@ def run(ctx):
                                 "returned despite a read error")
             fs.disarm()
         check_parse(ctx, d2, p2, path, multi, agents, want_states, want_steps, triplets_states(triplets), True)
+        if W.P["objects"] and f.chance(1, 4):
+            kept_parser_renamed_world(ctx, W, d2, p2, path, multi, agents, want_states, want_steps, f)
     else:
         ctx.new_epoch()
         d2, p2, _ = C.lib_world(ctx, W, S0, tag="-r")
@@ -297,6 +299,42 @@ def run(ctx):
         check_parse(ctx, d4, p4, path, multi, agents, want_states, want_steps, None, False)
         ctx.probes["retry_ok"] += 1
     ctx.steps += len(triplets)
+
+
+def kept_parser_renamed_world(ctx, W, d2, p2, path, multi, agents, want_states, want_steps, f):
+    """history: ONE TrajectoryParser object reads the trajectory, then the problem's object table is changed in place
+    (an object is replaced by one with another name: same size, same dict), and the same parser reads the trajectory of
+    the renamed world.  Both readings must reproduce what was written."""
+    import re
+    from pddl_plus_parser.models import PDDLObject
+    site = "TrajectoryParser kept across calls (object renamed in place in problem.objects)"
+    kept = L().TrajectoryParser(d2, p2)
+    try:
+        obs = kept.parse_trajectory(path, executing_agents=agents if multi else None)
+    except Exception as e:
+        raise Violation("C10/exported-trajectory-rejected", site, f"{type(e).__name__}: {e}")
+    compare_obs(ctx, obs, multi, want_states, want_steps, None, site)
+    old = sorted(W.P["objects"])[f.draw(len(W.P["objects"]))]
+    new = "zren"
+    r = lambda x: new if x == old else x
+    text = fs.read_real_bytes(path).decode("utf-8")
+    # (argument positions only: a token right after '(' is a predicate, function or action name, never an object)
+    text2 = re.sub(r"(?<=\s)" + re.escape(old) + r"(?=[\s)])", new, text)
+    path2 = ctx.rundir / "traj-renamed.trajectory"
+    fs.write_real(path2, text2)
+    obj = p2.objects.pop(old)
+    p2.objects[new] = PDDLObject(name=new, type=obj.type)
+    states2 = [(frozenset((a[0],) + tuple(r(x) for x in a[1:]) for a in S[0]),
+                {(k[0],) + tuple(r(x) for x in k[1:]): v for k, v in S[1].items()}) for S in want_states]
+    steps2 = [[(n, tuple(r(x) for x in args)) for n, args in st] for st in want_steps]
+    agents2 = [r(a) for a in agents]
+    try:
+        obs2 = kept.parse_trajectory(path2, executing_agents=agents2 if multi else None)
+    except Exception as e:
+        raise Violation("C10/exported-trajectory-rejected", site,
+                        f"after {old} was replaced by {new}: {type(e).__name__}: {e}")
+    compare_obs(ctx, obs2, multi, states2, steps2, None, site)
+    ctx.probes["kept_parser_renamed_world"] += 1
 
 
 def triplets_states(triplets):
